@@ -49,12 +49,19 @@ def commaOnly : Str → Bool
   | c :: rest => c == ',' && rest.all isSpace
   | [] => false
 
-/-- `ast.ArgumentList.__init__(code)`: a trailing comma is added when there is text; no offset, nothing stripped -/
-def argumentList (code : Str) : PyCall :=
+/-- `ast.ArgumentList.__init__(code, lineno_offset)`: a trailing comma is added when there is text; nothing is
+    stripped; the offset is passed on as it is (`0` for the filter attributes of tags) -/
+def argumentList (code : Str) (off : Int := 0) : PyCall :=
   let hasText := match code with
     | c :: _ => !isSpace c
     | [] => false
-  { code := if hasText && !commaOnly code then code ++ [','] else code, offset := 0 }
+  { code := if hasText && !commaOnly code then code ++ [','] else code, offset := off }
+
+/-- `match_expression` (since 78adfd6): `leading = escapes[: len(escapes) - len(escapes.lstrip())]`,
+    `escapes_lineno_offset = (text + leading).count("\n")` – the line the first filter is on, relative to `${`;
+    `exprRaw` is the text between `${` and the bar, `rawEsc` the text between the bar and `}` -/
+def escapesLinenoOffset (exprRaw rawEsc : Str) : Nat :=
+  countNL (exprRaw ++ rawEsc.take (rawEsc.length - (lstripPy rawEsc).length))
 
 /-- `ast.FunctionDecl.__init__(code)` -/
 def functionDecl (code : Str) : PyCall := { code := code, offset := 0 }
@@ -126,7 +133,8 @@ def pythonFragment (code : Str) : FragRes :=
 /-- the constructs that hold Python, by the constructor call that parses them -/
 inductive Label
   | expr        -- `${c}` / `${c | …}`:         `Expression.code = PythonCode(text)`
-  | filter      -- `${… | c}`:                   `Expression.escapes_code = ArgumentList(escapes)`
+  | filter (off : Nat)   -- `${… | c}`: `Expression.escapes_code = ArgumentList(escapes, lineno_offset=off)`,
+                -- `off` = the `escapes_lineno_offset` the lexer computed (`escapesLinenoOffset`)
   | block       -- `<% c %>` / `<%! c %>`:       `Code.code = PythonCode(adjust_whitespace(c) + "\n")`
   | ctl         -- `% c`:                        `ControlLine: PythonFragment(text)`
   | sigDef      -- `<%def name="c">`:            `FunctionDecl("def " + c + ":pass")`
@@ -141,7 +149,7 @@ inductive Label
     expressions and attribute values, `escapes.strip()` for a filter list, the text as it is otherwise -/
 def ctorString : Label → Str → Str
   | .expr, raw => replaceCRLF raw
-  | .filter, raw => stripPy raw
+  | .filter _, raw => stripPy raw
   | .block, raw => raw
   | .ctl, raw => raw
   | _, raw => replaceCRLF raw
@@ -149,7 +157,7 @@ def ctorString : Label → Str → Str
 /-- the call of the Python parser made for a construct whose constructor receives `c` -/
 def pyCallOf : Label → Str → Option PyCall
   | .expr, c => some (pythonCode c)
-  | .filter, c => some (argumentList c)
+  | .filter off, c => some (argumentList c off)
   | .block, c => some (pythonCode (PyExpr.Ws.adjustWhitespace c ++ ['\n']))
   | .ctl, c =>
     match pythonFragment c with
@@ -207,7 +215,7 @@ def hasSyntheticLine : Label → Str → Bool
     filter list are parsed from their first character; `elif/else/except` follow one synthetic line. -/
 def rawLineOf (lb : Label) (raw : Str) (k : Nat) : Nat :=
   match lb with
-  | .expr | .filter | .block | .attrExpr | .callExpr => leadingBlankLines raw + k
+  | .expr | .filter _ | .block | .attrExpr | .callExpr => leadingBlankLines raw + k
   | .ctl => if hasSyntheticLine .ctl raw then k - 1 else k
   | .sigDef | .sigArgs | .dummyArgs | .argList => k
 
@@ -275,7 +283,7 @@ def faultStart (r : Result) : Option Nat :=
 /-- errors raised while a node is constructed (`parsetree`) or visited (`codegen`): all carry
     `node.exception_kwargs` (or the very kwargs the node is being built with) -/
 inductive NodeFault
-  | noSuchTag | missingAttribute | invalidAttribute | attrNoExpressions | missingParenthesis
+  | noSuchTag | invalidTagName | missingAttribute | invalidAttribute | attrNoExpressions | missingParenthesis
   | blockHasSignature | anonBlockArgs | namespaceNeedsName | namespaceFileAndModule
   | notFunctionDecl | kwargsNotAllowed | importStar | fragmentNotPartial | unsupportedKeyword
   | duplicateName | namedBlockInDef | namedBlockInCall | anonBlockInNamespace
